@@ -1016,7 +1016,7 @@ func TestGocvReplay(t *testing.T) {
 `}
 	replayers["(*kmipclient.Client).negotiateVersion"] = replayers["scenario:C13"]
 	// protocol-violating responses (C12)
-	replayers["scenario:C12"] = &Replayer{PkgDir: "kmipclient", Oracle: "scripted responses (nil payload, payload of another operation, typed-nil payload, wrong header/item counts, every failure status) to Request / Executor / negotiateVersion: always an error or the payload type of the requested operation, never a panic",
+	replayers["scenario:C12"] = &Replayer{PkgDir: "kmipclient", Oracle: "scripted responses (nil payload, payload of another operation, typed-nil payload, wrong header/item counts, every failure status) to Request / Batch / Executor / negotiateVersion: always an error or the payload type of the requested operation, never a panic",
 		Template: `package kmipclient
 
 import (
@@ -1068,6 +1068,24 @@ func TestGocvReplay(t *testing.T) {
 					}
 					c2 := &Client{supportedVersions: []kmip.ProtocolVersion{kmip.V1_4}, middlewares: c.middlewares}
 					_ = c2.negotiateVersion(context.Background())
+					// the untyped calls: a payload is returned as success only if it belongs to the requested operation
+					// (a request-type payload of the right operation cannot be told apart without the static type)
+					ur, uerr := c.Request(context.Background(), &payloads.ActivateRequestPayload{UniqueIdentifier: "x"})
+					ugood := (name == "right" || name == "request-type") && st == kmip.ResultStatusSuccess && shape == "ok"
+					if ugood != (uerr == nil) {
+						t.Fatalf("GOCV-REPRODUCED: {{.Obligation}}: Request(Activate) with %s: err=%v result=%T", desc, uerr, ur)
+					}
+					if uerr == nil && (ur == nil || ur.Operation() != kmip.OperationActivate) {
+						t.Fatalf("GOCV-REPRODUCED: {{.Obligation}}: Request(Activate) returned a payload of another operation as success (%s): %T", desc, ur)
+					}
+					br, berr := c.Batch(context.Background(), &payloads.ActivateRequestPayload{UniqueIdentifier: "x"})
+					if berr == nil {
+						for _, it := range br {
+							if it.ResultStatus == kmip.ResultStatusSuccess && it.ResponsePayload != nil && it.ResponsePayload.Operation() != kmip.OperationActivate {
+								t.Fatalf("GOCV-REPRODUCED: {{.Obligation}}: Batch(Activate) handed back a successful item with the payload of another operation (%s): %T", desc, it.ResponsePayload)
+							}
+						}
+					}
 				}()
 			}
 		}
@@ -1258,6 +1276,7 @@ func TestGocvReplay(t *testing.T) {
 
 import (
 	"bytes"
+	"fmt"
 	"testing"
 	"time"
 
@@ -1267,6 +1286,7 @@ import (
 )
 
 var _ = time.Now
+var _ = fmt.Sprint
 var _ = payloads.GetRequestPayload{}
 
 func gocvRoundTrip[T any](t *testing.T, what string, in *T) {
@@ -1303,10 +1323,10 @@ func gocvAttrs() []kmip.Attribute {
 		{AttributeName: kmip.AttributeNameCryptographicLength, AttributeValue: int32(128)}}
 }
 `
-	replayers["scenario:C01-response-item"] = &Replayer{PkgDir: ".", Oracle: "response messages whose batch item carries every optional part (operation, ID, reason, message, asynchronous correlation value, payload, message extension), in every combination, round-trip through MarshalTTLV/UnmarshalTTLV to an equal value and to identical bytes",
+	replayers["scenario:C01-response-item"] = &Replayer{PkgDir: ".", Oracle: "response messages whose batch item carries every optional part (operation, ID, status success / failed / pending, reason, message, asynchronous correlation value, payload also on a failed or pending item, message extension), in every combination, round-trip through MarshalTTLV/UnmarshalTTLV to an equal value and to identical bytes",
 		Template: mirrorHead + `
 func TestGocvReplay(t *testing.T) {
-	for mask := 0; mask < 64; mask++ {
+	for mask := 0; mask < 256; mask++ {
 		bi := kmip.ResponseBatchItem{ResultStatus: kmip.ResultStatusSuccess}
 		if mask&1 != 0 {
 			bi.Operation = kmip.OperationActivate
@@ -1316,9 +1336,15 @@ func TestGocvReplay(t *testing.T) {
 			bi.UniqueBatchItemID = []byte{9, 9}
 		}
 		if mask&4 != 0 {
+			// a failed, pending or undone item may or may not carry a payload
 			bi.ResultStatus = kmip.ResultStatusOperationFailed
+			if mask&128 != 0 {
+				bi.ResultStatus = kmip.ResultStatusOperationPending
+			}
 			bi.ResultReason = kmip.ResultReasonGeneralFailure
-			bi.ResponsePayload = nil
+			if mask&64 == 0 {
+				bi.ResponsePayload = nil
+			}
 		}
 		if mask&8 != 0 {
 			bi.ResultMessage = "text"
@@ -1331,6 +1357,46 @@ func TestGocvReplay(t *testing.T) {
 		}
 		msg := kmip.ResponseMessage{Header: kmip.ResponseHeader{ProtocolVersion: kmip.V1_4, BatchCount: 1}, BatchItem: []kmip.ResponseBatchItem{bi}}
 		gocvRoundTrip(t, "response batch item", &msg)
+	}
+}
+`}
+	replayers["scenario:C01-attribute"] = &Replayer{PkgDir: ".", Oracle: "Get Attributes responses and Add Attribute requests whose attributes carry no index, index 0, 1 and 7, with values of every kind (enumeration, integer, mask, text, date-time, structure, custom x- attribute as opaque TTLV), round-trip through MarshalTTLV/UnmarshalTTLV to identical bytes with the index and the value type preserved",
+		Template: mirrorHead + `
+func TestGocvReplay(t *testing.T) {
+	idx := func(i int32) *int32 { return &i }
+	ts := time.Unix(1577934245, 0)
+	values := []kmip.Attribute{
+		{AttributeName: kmip.AttributeNameCryptographicAlgorithm, AttributeValue: kmip.CryptographicAlgorithmAES},
+		{AttributeName: kmip.AttributeNameCryptographicLength, AttributeValue: int32(256)},
+		{AttributeName: kmip.AttributeNameCryptographicUsageMask, AttributeValue: kmip.CryptographicUsageSign | kmip.CryptographicUsageVerify},
+		{AttributeName: kmip.AttributeNameName, AttributeValue: kmip.Name{NameValue: "n", NameType: kmip.NameTypeUninterpretedTextString}},
+		{AttributeName: kmip.AttributeNameActivationDate, AttributeValue: ts},
+		{AttributeName: kmip.AttributeNameOperationPolicyName, AttributeValue: "default"},
+		{AttributeName: "x-custom", AttributeValue: ttlv.Value{Tag: kmip.TagAttributeValue, Value: int64(7)}},
+	}
+	for vi, base := range values {
+		for _, ix := range []*int32{nil, idx(0), idx(1), idx(7)} {
+			a := base
+			a.AttributeIndex = ix
+			b := values[(vi+1)%len(values)]
+			b.AttributeIndex = idx(0)
+			resp := kmip.ResponseMessage{Header: kmip.ResponseHeader{ProtocolVersion: kmip.V1_4, BatchCount: 1}, BatchItem: []kmip.ResponseBatchItem{ {Operation: kmip.OperationGetAttributes,
+				ResponsePayload: &payloads.GetAttributesResponsePayload{UniqueIdentifier: "id", Attribute: []kmip.Attribute{a, b}}} }}
+			gocvRoundTrip(t, "Get Attributes response", &resp)
+			var back kmip.ResponseMessage
+			if err := ttlv.UnmarshalTTLV(ttlv.MarshalTTLV(&resp), &back); err == nil {
+				got := back.BatchItem[0].ResponsePayload.(*payloads.GetAttributesResponsePayload).Attribute
+				if len(got) != 2 || (got[0].AttributeIndex == nil) != (ix == nil) || (ix != nil && *got[0].AttributeIndex != *ix) || got[1].AttributeIndex == nil || *got[1].AttributeIndex != 0 {
+					t.Fatalf("GOCV-REPRODUCED: {{.Obligation}}: attribute index not preserved (value %d, index %v): %+v", vi, ix, got)
+				}
+				if got[0].AttributeName != a.AttributeName || fmt.Sprintf("%T", got[0].AttributeValue) != fmt.Sprintf("%T", a.AttributeValue) {
+					t.Fatalf("GOCV-REPRODUCED: {{.Obligation}}: attribute %s decoded as %T instead of %T", a.AttributeName, got[0].AttributeValue, a.AttributeValue)
+				}
+			}
+			req := kmip.RequestMessage{Header: kmip.RequestHeader{ProtocolVersion: kmip.V1_4, BatchCount: 1}, BatchItem: []kmip.RequestBatchItem{ {Operation: kmip.OperationAddAttribute,
+				RequestPayload: &payloads.AddAttributeRequestPayload{UniqueIdentifier: "id", Attribute: a}} }}
+			gocvRoundTrip(t, "Add Attribute request", &req)
+		}
 	}
 }
 `}
@@ -1534,7 +1600,7 @@ func TestGocvReplay(t *testing.T) {
 				}
 				rows = append(rows, fmt.Sprintf("\t\t{new(%s), %q, %s, %s},", v.Struct, v.Field, parts[0], parts[1]))
 			}
-			replayers["scenario:C05-table"] = &Replayer{PkgDir: ".", Oracle: fmt.Sprintf("each of the %d version-dependent fields of the pinned table, populated alone in its structure and encoded by the real binary encoder at each of the protocol versions 1.0 to 1.4, is present exactly from the version that introduces it", len(rows)),
+			replayers["scenario:C05-table"] = &Replayer{PkgDir: ".", Oracle: fmt.Sprintf("each of the %d version-dependent fields of the pinned table, populated alone in its structure and encoded by the real binary encoder at each of the protocol versions 1.0 to 1.4, is present exactly from the version that introduces it; request and response messages at each version through the real headers, alone and after a Discover Versions item listing other versions (5 lists): Offset Items / Located Items (1.3) and the correlation values (1.4) are on the wire exactly when the header version allows", len(rows)),
 				Template: c05Head + strings.Join(rows, "\n") + c05Tail}
 		}
 	}
@@ -1705,6 +1771,181 @@ func TestGocvReplay(t *testing.T) {
 				t.Errorf("GOCV-REPRODUCED: {{.Obligation}}: %s: %q -> %q: binary form of the decoded message differs from the original", c.name, r[0], r[1])
 			}
 		}
+	}
+}
+`}
+	// Go integer kinds (C03): whatever kind the caller hands over, the number on the wire is the number handed over
+	replayers["scenario:C03-anyvalues"] = &Replayer{PkgDir: "ttlv", Oracle: "the minimum, the maximum, 0, -1 and mid-range values of every Go integer kind (int8 ... int64, uint8 ... uint64, int, uint), booleans, strings and byte strings handed to Encoder.TagAny directly and as a structure field: the call is refused (panic) or the item written is a well-formed Integer / Long Integer (Boolean, Text String, Byte String) whose value read by an independent parser is the value handed over, and both paths write the same item",
+		Template: `package ttlv
+
+import (
+	"bytes"
+	"encoding/binary"
+	"math"
+	"math/big"
+	"reflect"
+	"testing"
+)
+
+func TestGocvReplay(t *testing.T) {
+	vals := []any{int8(math.MinInt8), int8(-1), int8(0), int8(math.MaxInt8), int16(math.MinInt16), int16(math.MaxInt16), int32(math.MinInt32), int32(-1), int32(math.MaxInt32),
+		int64(math.MinInt64), int64(-5000000000), int64(math.MaxInt64), int(-7), int(math.MaxInt32), uint8(0), uint8(200), uint8(math.MaxUint8), uint16(60000), uint16(math.MaxUint16),
+		uint32(0), uint32(7), uint32(1 << 31), uint32(3000000000), uint32(math.MaxUint32), uint64(5000000000), uint64(1<<63 + 1), uint(9), true, false, "abc", "", []byte{1, 2, 3}}
+	encode := func(v any, inStruct bool) (item []byte, refused bool) {
+		defer func() {
+			if recover() != nil {
+				refused = true
+			}
+		}()
+		enc := NewTTLVEncoder()
+		if !inStruct {
+			enc.TagAny(0x42000d, v)
+			return enc.Bytes(), false
+		}
+		st := reflect.New(reflect.StructOf([]reflect.StructField{ {Name: "BatchCount", Type: reflect.TypeOf(v), Tag: "ttlv:\"0x42000d\""} })).Elem()
+		st.Field(0).Set(reflect.ValueOf(v))
+		enc.TagAny(0x420077, st.Interface())
+		out := enc.Bytes()
+		if len(out) < 8 {
+			return out, false
+		}
+		return out[8:], false
+	}
+	for _, v := range vals {
+		a, ra := encode(v, false)
+		b, rb := encode(v, true)
+		if ra != rb || !bytes.Equal(a, b) {
+			t.Fatalf("GOCV-REPRODUCED: {{.Obligation}}: %T(%v) is written differently directly (% x, refused=%v) and as a structure field (% x, refused=%v)", v, v, a, ra, b, rb)
+		}
+		if ra {
+			continue
+		}
+		if len(a) < 8 || a[0] != 0x42 || a[1] != 0x00 || a[2] != 0x0d || len(a) != 8+(int(binary.BigEndian.Uint32(a[4:8]))+7)/8*8 {
+			t.Fatalf("GOCV-REPRODUCED: {{.Obligation}}: %T(%v) is written as a malformed item % x", v, v, a)
+		}
+		l := int(binary.BigEndian.Uint32(a[4:8]))
+		want := new(big.Int)
+		rv := reflect.ValueOf(v)
+		switch {
+		case rv.CanInt():
+			want.SetInt64(rv.Int())
+		case rv.CanUint():
+			want.SetUint64(rv.Uint())
+		}
+		switch Type(a[3]) {
+		case TypeInteger:
+			if got := big.NewInt(int64(int32(binary.BigEndian.Uint32(a[8:12])))); l != 4 || !(rv.CanInt() || rv.CanUint()) || got.Cmp(want) != 0 {
+				t.Fatalf("GOCV-REPRODUCED: {{.Obligation}}: %T(%v) is written as the Integer %v (% x)", v, v, got, a)
+			}
+		case TypeLongInteger:
+			if got := big.NewInt(int64(binary.BigEndian.Uint64(a[8:16]))); l != 8 || !(rv.CanInt() || rv.CanUint()) || got.Cmp(want) != 0 {
+				t.Fatalf("GOCV-REPRODUCED: {{.Obligation}}: %T(%v) is written as the Long Integer %v (% x)", v, v, got, a)
+			}
+		case TypeBoolean:
+			if bv, ok := v.(bool); !ok || l != 8 || (binary.BigEndian.Uint64(a[8:16]) == 1) != bv || binary.BigEndian.Uint64(a[8:16]) > 1 {
+				t.Fatalf("GOCV-REPRODUCED: {{.Obligation}}: %T(%v) is written as the Boolean % x", v, v, a)
+			}
+		case TypeTextString:
+			if sv, ok := v.(string); !ok || string(a[8:8+l]) != sv {
+				t.Fatalf("GOCV-REPRODUCED: {{.Obligation}}: %T(%v) is written as the Text String % x", v, v, a)
+			}
+		case TypeByteString:
+			if bs, ok := v.([]byte); !ok || !bytes.Equal(a[8:8+l], bs) {
+				t.Fatalf("GOCV-REPRODUCED: {{.Obligation}}: %T(%v) is written as the Byte String % x", v, v, a)
+			}
+		default:
+			t.Fatalf("GOCV-REPRODUCED: {{.Obligation}}: %T(%v) is written with type %d (% x)", v, v, a[3], a)
+		}
+	}
+}
+`}
+	// interval range (C03): what the binary writer does with durations around the 32-bit limit
+	replayers["scenario:C03-interval"] = &Replayer{PkgDir: "ttlv", Oracle: "whole-second durations 0, 1 s, 2^31 s, 2^32-1 s, 2^32 s, 2^32+1 s, 200 years and the largest Duration handed to the binary writer: either the call is refused (panic) or the item written is a well-formed Interval whose 32-bit value is the number of seconds handed in",
+		Template: `package ttlv
+
+import (
+	"encoding/binary"
+	"testing"
+	"time"
+)
+
+func TestGocvReplay(t *testing.T) {
+	for _, secs := range []int64{0, 1, 1 << 31, 1<<32 - 1, 1 << 32, 1<<32 + 1, 200 * 365 * 24 * 3600, int64(1<<63-1) / int64(time.Second)} {
+		d := time.Duration(secs) * time.Second
+		var out []byte
+		refused := false
+		func() {
+			defer func() {
+				if recover() != nil {
+					refused = true
+				}
+			}()
+			enc := NewTTLVEncoder()
+			enc.Interval(0x420049, d)
+			out = enc.Bytes()
+		}()
+		if refused {
+			continue
+		}
+		if len(out) != 16 || out[3] != byte(TypeInterval) || binary.BigEndian.Uint32(out[4:8]) != 4 {
+			t.Fatalf("GOCV-REPRODUCED: {{.Obligation}}: Interval of %d s is written as a malformed item % x", secs, out)
+		}
+		if got := int64(binary.BigEndian.Uint32(out[8:12])); got != secs {
+			t.Fatalf("GOCV-REPRODUCED: {{.Obligation}}: Interval of %d s is written as %d s (% x)", secs, got, out)
+		}
+	}
+}
+`}
+	replayers["(*ttlv.ttlvWriter).Interval"] = replayers["scenario:C03-interval"]
+	// abandoned exchange (C11): the writer goroutine must end when the caller has given up
+	replayers["scenario:C11-writeloop"] = &Replayer{PkgDir: "kmipclient", Oracle: "a request is handed to the writer goroutine over a pipe whose peer never reads, the caller's context is cancelled while the write is blocked, the connection is closed: send returns and, within 2 s, no goroutine of the connection is left blocked on a channel send",
+		Template: `package kmipclient
+
+import (
+	"context"
+	"net"
+	"runtime"
+	"strings"
+	"testing"
+	"time"
+
+	"github.com/ovh/kmip-go"
+	"github.com/ovh/kmip-go/payloads"
+)
+
+func TestGocvReplay(t *testing.T) {
+	a, b := net.Pipe() // b never reads: the write of the request blocks
+	defer b.Close()
+	c := newConn(a)
+	ctx, cancel := context.WithCancel(context.Background())
+	msg := kmip.NewRequestMessage(kmip.V1_4, &payloads.ActivateRequestPayload{UniqueIdentifier: "x"})
+	done := make(chan error, 1)
+	go func() { done <- c.send(ctx, &msg) }()
+	time.Sleep(100 * time.Millisecond) // the writeloop has taken the message and is blocked in Write
+	cancel()                           // the caller gives up: send terminates the connection and returns
+	select {
+	case <-done:
+	case <-time.After(2 * time.Second):
+		t.Fatalf("GOCV-REPRODUCED: {{.Obligation}}: send did not return after its context was cancelled")
+	}
+	_ = c.Close()
+	deadline := time.Now().Add(2 * time.Second)
+	for {
+		buf := make([]byte, 1<<20)
+		buf = buf[:runtime.Stack(buf, true)]
+		leaked := false
+		for _, g := range strings.Split(string(buf), "\n\n") {
+			if strings.Contains(g, "(*conn).writeloop") && strings.Contains(g, "chan send") {
+				leaked = true
+			}
+		}
+		if !leaked {
+			return
+		}
+		if time.Now().After(deadline) {
+			t.Fatalf("GOCV-REPRODUCED: {{.Obligation}}: the writeloop goroutine is still blocked on its error channel 2 s after the connection was closed")
+		}
+		time.Sleep(50 * time.Millisecond)
 	}
 }
 `}
@@ -2323,6 +2564,45 @@ const c05Tail = `
 			want := v.ProtocolVersionMajor > f.major || v.ProtocolVersionMajor == f.major && v.ProtocolVersionMinor >= f.minor
 			if present != want {
 				t.Fatalf("GOCV-REPRODUCED: {{.Obligation}}: %s.%s (introduced in %d.%d) populated and encoded at %d.%d: present=%v, want %v", ty, f.field, f.major, f.minor, v.ProtocolVersionMajor, v.ProtocolVersionMinor, present, want)
+			}
+		}
+	}
+	// whole messages through the real headers, requests and responses, with items whose payloads contain protocol
+	// versions of their own (Discover Versions) before the gated item: the version of the header alone decides
+	ge := func(v kmip.ProtocolVersion, major, minor int32) bool {
+		return v.ProtocolVersionMajor > major || v.ProtocolVersionMajor == major && v.ProtocolVersionMinor >= minor
+	}
+	lists := [][]kmip.ProtocolVersion{nil, {kmip.V1_0}, {kmip.V1_4}, {kmip.V1_0, kmip.V1_4}, {kmip.V1_4, kmip.V1_0}}
+	for _, v := range []kmip.ProtocolVersion{kmip.V1_0, kmip.V1_1, kmip.V1_2, kmip.V1_3, kmip.V1_4} {
+		for li, list := range lists {
+			req := &kmip.RequestMessage{Header: kmip.RequestHeader{ProtocolVersion: v, ClientCorrelationValue: "c", BatchCount: 1}}
+			if list != nil {
+				req.BatchItem = append(req.BatchItem, kmip.RequestBatchItem{Operation: kmip.OperationDiscoverVersions, RequestPayload: &payloads.DiscoverVersionsRequestPayload{ProtocolVersion: list}})
+				req.Header.BatchCount = 2
+			}
+			req.BatchItem = append(req.BatchItem, kmip.RequestBatchItem{Operation: kmip.OperationLocate, RequestPayload: &payloads.LocateRequestPayload{MaximumItems: 3, OffsetItems: 5}})
+			var req2 kmip.RequestMessage
+			if err := ttlv.UnmarshalTTLV(ttlv.MarshalTTLV(req), &req2); err != nil {
+				t.Fatalf("GOCV-REPRODUCED: {{.Obligation}}: request at %d.%d (list %d) does not decode: %v", v.ProtocolVersionMajor, v.ProtocolVersionMinor, li, err)
+			}
+			loc, _ := req2.BatchItem[len(req2.BatchItem)-1].RequestPayload.(*payloads.LocateRequestPayload)
+			if loc == nil || (loc.OffsetItems == 5) != ge(v, 1, 3) || loc.MaximumItems != 3 || (req2.Header.ClientCorrelationValue == "c") != ge(v, 1, 4) {
+				t.Fatalf("GOCV-REPRODUCED: {{.Obligation}}: request at %d.%d with a Discover Versions item listing %v: Offset Items (1.3) present=%v, Client Correlation Value (1.4) present=%v", v.ProtocolVersionMajor, v.ProtocolVersionMinor, list, loc != nil && loc.OffsetItems == 5, req2.Header.ClientCorrelationValue == "c")
+			}
+			n := int32(7)
+			resp := &kmip.ResponseMessage{Header: kmip.ResponseHeader{ProtocolVersion: v, TimeStamp: time.Unix(1000, 0), ServerCorrelationValue: "s", BatchCount: 1}}
+			if list != nil {
+				resp.BatchItem = append(resp.BatchItem, kmip.ResponseBatchItem{Operation: kmip.OperationDiscoverVersions, ResponsePayload: &payloads.DiscoverVersionsResponsePayload{ProtocolVersion: list}})
+				resp.Header.BatchCount = 2
+			}
+			resp.BatchItem = append(resp.BatchItem, kmip.ResponseBatchItem{Operation: kmip.OperationLocate, ResponsePayload: &payloads.LocateResponsePayload{LocatedItems: &n, UniqueIdentifier: []string{"a"}}})
+			var resp2 kmip.ResponseMessage
+			if err := ttlv.UnmarshalTTLV(ttlv.MarshalTTLV(resp), &resp2); err != nil {
+				t.Fatalf("GOCV-REPRODUCED: {{.Obligation}}: response at %d.%d (list %d) does not decode: %v", v.ProtocolVersionMajor, v.ProtocolVersionMinor, li, err)
+			}
+			rl, _ := resp2.BatchItem[len(resp2.BatchItem)-1].ResponsePayload.(*payloads.LocateResponsePayload)
+			if rl == nil || (rl.LocatedItems != nil) != ge(v, 1, 3) || len(rl.UniqueIdentifier) != 1 || (resp2.Header.ServerCorrelationValue == "s") != ge(v, 1, 4) {
+				t.Fatalf("GOCV-REPRODUCED: {{.Obligation}}: response at %d.%d with a Discover Versions item listing %v: Located Items (1.3) present=%v, Server Correlation Value (1.4) present=%v", v.ProtocolVersionMajor, v.ProtocolVersionMinor, list, rl != nil && rl.LocatedItems != nil, resp2.Header.ServerCorrelationValue == "s")
 			}
 		}
 	}
